@@ -72,6 +72,11 @@ func newDuplexHTTPCall(
 		url,
 		pipeReader,
 	)
+	if err != nil {
+		// The call fails below; until then its accessors need something to
+		// point at.
+		request = &http.Request{}
+	}
 	request.Header = header
 	client := &duplexHTTPCall{
 		ctx:               ctx,
@@ -88,6 +93,9 @@ func newDuplexHTTPCall(
 		// network. Exhaust the sync.Once immediately and short-circuit Read and
 		// Write by setting an error.
 		client.sendRequestOnce.Do(func() {})
+		// No request will ever be made, so nobody else will announce that there
+		// is no response to wait for.
+		close(client.responseReady)
 		connectErr := errorf(CodeUnavailable, "construct *http.Request: %w", err)
 		client.SetError(connectErr)
 	}
